@@ -1,7 +1,13 @@
-(* extraction of the executable C13 model (ExtrOcamlBasic only; Z stays the extracted inductive) *)
-From Coq Require Import List ZArith Extraction ExtrOcamlBasic.
-From LN Require Import C13_Defs.
+(* extraction of the executable C13 model (ExtrOcamlBasic; Z stays the extracted inductive; the binary64 twin of the grid
+   mapping of stage SURR uses OCaml's native floats through ExtrOCamlFloats) *)
+From Coq Require Import List ZArith QArith Qabs Floats Extraction ExtrOcamlBasic ExtrOCamlFloats.
+From LN Require Import C13_Defs C13_Surrogate_Defs.
 Extraction Language OCaml.
 Extraction "extracted/c13_model.ml" local_search fresh evaluate step1_pick init_pick optimize_pick calls_of
   isort set_front srt_pick minimisers fuel_for avg_igrid min_igrid max_igrid
-  batch_tasks all_tasks slot slot_load optimum_trial trial_sums.
+  batch_tasks all_tasks slot slot_load optimum_trial trial_sums
+  (* stage SURR *)
+  fit_size dim_of_size pair_index pairs_fit pairs_grad pairs_value quad_terms sg_value sg_grad sg_quad fit_rows fit_value fit_grad fit_quad
+  fit_declared_convex qdot closest_point closest_value to_surrogate_lin from_surrogate_lin dbl_max sg_proposal sg_prop
+  optimize_pick_sg step1_pick_sg closest_point_f to_surrogate_lin_f from_surrogate_lin_f sg_proposal_f sg_prop_f optimize_pick_sg_f
+  Qeq_bool Qle_bool Qcompare Qplus Qminus Qmult Qabs.Qabs Qred.
